@@ -66,6 +66,9 @@ pub fn check_session(
             RunOpts {
                 schedule: marwood::vm::verif::GcSchedule::Random { state, num: 1, den: 11 },
                 gc_between_forms: true,
+                // a collection costs a sweep of the whole heap: a run that goes astray must not
+                // spend two million instructions at that price (over budget = not compared)
+                instr_budget: 60_000,
                 ..RunOpts::default()
             },
         ));
